@@ -34,9 +34,13 @@ SEC == <<194, 167>>          \* UTF-8 of the section sign used by the legacy Min
 QHeader(v) == CASE v = 1 -> "n" [] v = 2 -> "print\n" [] v = 3 -> "statusResponse\n"
 \* alt: which spelling of the named variables the server uses: "no" primary, "yes" alternate, "both" (then the primary one names
 \* the field - as in the reference implementation - and the alternate one is an ordinary unused variable)
+\* big: the length of one extra variable's value - a status reply is ONE datagram whatever its size (D17): 5 000, 20 000 and
+\* 60 000 bytes are all legal (the formats have no split mechanism)
+BigSizes == {0, 5000, 20000, 60000}
 QuakeShapes == [ver : {1, 2, 3}, alt : {"no", "yes", "both"}, version : {"none", "version", "*version", "both"}, extras : {0, 2},
-                players : Counts, addr : BOOLEAN, spaces : BOOLEAN]
-QuakeOk(s) == (s.ver = 1 => ~s.addr) /\ (s.spaces => s.players > 0)
+                players : Counts, addr : BOOLEAN, spaces : BOOLEAN, big : BigSizes]
+QuakeOk(s) == /\ (s.ver = 1 => ~s.addr) /\ (s.spaces => s.players > 0)
+              /\ (s.big > 0 => (s.extras = 2 /\ s.alt = "no" /\ s.version = "version" /\ ~s.addr /\ ~s.spaces))
 QuakeKnown == <<"hostname", "sv_hostname", "mapname", "map", "maxclients", "sv_maxclients", "version", "*version">>
 \* (Quake strings end at a line feed, not at a NUL: a NUL may occur inside a value - `nulok`)
 QKV(key, f, ty) == <<Txt("\\" \o key \o "\\"), [k |-> "f", f |-> f, ty |-> ty, excl |-> "\\\n", nulok |-> TRUE]>>
@@ -62,7 +66,9 @@ Quake(s) ==
              \o QKV(IF s.alt = "yes" THEN "sv_hostname" ELSE "hostname", "host", "text")
              \o If(s.alt = "both", QKV("sv_hostname", "host2", "text") \o QKV("map", "map2", "text") \o QKV("sv_maxclients", "max2", "dec_u8"))
              \o QKV(IF s.alt = "yes" THEN "map" ELSE "mapname", "map", "text")
-             \o Cat([i \in 1 .. s.extras |-> <<Txt("\\"), Fkey("xk" \o X(i), "\\\n", "keys", QuakeKnown), Txt("\\"), Fx("xv" \o X(i), "text", "\\\n")>>])
+             \o Cat([i \in 1 .. s.extras |-> <<Txt("\\"), Fkey("xk" \o X(i), "\\\n", "keys", QuakeKnown), Txt("\\"),
+                                              IF i = 1 /\ s.big > 0 THEN [k |-> "f", f |-> "xv" \o X(i), ty |-> "text", excl |-> "\\\n", len |-> s.big]
+                                              ELSE Fx("xv" \o X(i), "text", "\\\n")>>])
              \o QKV(IF s.alt = "yes" THEN "sv_maxclients" ELSE "maxclients", "max", "dec_u8")
              \o If(s.version # "none", QKV(IF s.version = "both" THEN "version" ELSE s.version, "version", "text"))
              \o If(s.version = "both", QKV("*version", "version2", "text"))
@@ -132,8 +138,9 @@ Gs1(s) ==
 -----------------------------------------------------------------------------
 (* GameSpy 2: 00, request id, (key 00 value 00)*, 00, player table, team table *)
 Gs2Known == <<"hostname", "mapname", "password", "maxplayers", "minplayers", "numplayers">>
-Gs2Shapes == [players : Counts, teams : TeamCounts \cup {1}, extras : {0, 2}, min : BOOLEAN, num : {"absent", "equal", "more", "less"}]
-Gs2Ok(s) == s.num = "less" => s.players > 0
+Gs2Shapes == [players : Counts, teams : TeamCounts \cup {1}, extras : {0, 2}, min : BOOLEAN, num : {"absent", "equal", "more", "less"},
+              big : {0, 5000, 20000, 60000}]
+Gs2Ok(s) == (s.num = "less" => s.players > 0) /\ (s.big > 0 => (s.extras = 2 /\ ~s.min /\ s.num = "absent"))
 Z(f, ty) == <<F(f, ty)>>
 KVZ(key, f, ty) == <<Txt(key), Lit(NUL), Fx(f, ty, ""), Lit(NUL)>>
 Reported(s) == CASE s.num = "equal" -> s.players [] s.num = "more" -> s.players + 3 [] s.num = "less" -> s.players - 1 [] OTHER -> 0
@@ -145,7 +152,9 @@ Gs2(s) ==
              \o KVZ("maxplayers", "max", "dec_u32")
              \o If(s.min, KVZ("minplayers", "min", "dec_u32"))
              \o If(s.num # "absent", <<Txt("numplayers"), Lit(NUL), Txt(Str(Reported(s))), Lit(NUL)>>)
-             \o Cat([i \in 1 .. s.extras |-> <<Fkey("xk" \o X(i), "", "keys", Gs2Known), Lit(NUL), Fx("xv" \o X(i), "text", ""), Lit(NUL)>>])
+             \o Cat([i \in 1 .. s.extras |-> <<Fkey("xk" \o X(i), "", "keys", Gs2Known), Lit(NUL),
+                                              IF i = 1 /\ s.big > 0 THEN [k |-> "f", f |-> "xv" \o X(i), ty |-> "text", excl |-> "", len |-> s.big]
+                                              ELSE Fx("xv" \o X(i), "text", ""), Lit(NUL)>>])
              \o <<Lit(NUL)>>                                     \* end of the variables
              \o <<Lit(<<0, s.players>>)>>
              \o If(s.players > 0, <<Txt("player_"), Lit(NUL), Txt("score_"), Lit(NUL), Txt("ping_"), Lit(NUL), Txt("team_"), Lit(NUL), Lit(NUL)>>)
@@ -272,8 +281,12 @@ U2InfoExpect ==
 U2Str(s) == [items |-> U2InfoItems(Ustr("name", s.enc, s.atoms), F("numplayers", "u32le")),
              expect |-> U2InfoExpect \o <<E(<<"server_info", "num_players">>, "numplayers")>>, entry |-> "unreal2", section |-> "info"]
 \* lists
-U2ListShapes == [rules : Counts, repeat : BOOLEAN, mutators : {0, 2}, players : Counts, bots : {0, 1}, datagrams : 1 .. 3, pw : {"none", "true", "false"}]
-U2ListOk(s) == (s.repeat => s.rules > 0)
+\* num: what the player count of the server-info reply counts: "all" listed entries, or the "humans" only (a server whose count
+\* leaves the bots out; its players reply then fits one datagram - the count is all a client has to know when to stop reading)
+U2ListShapes == [rules : Counts, repeat : BOOLEAN, mutators : {0, 2}, players : Counts, bots : {0, 1}, datagrams : 1 .. 3, pw : {"none", "true", "false"},
+                 num : {"all", "humans"}]
+U2ListOk(s) == (s.repeat => s.rules > 0) /\ (s.num = "humans" => (s.bots > 0 /\ s.players <= 3))
+U2Reported(s) == IF s.num = "humans" THEN s.players ELSE s.players + s.bots
 \* rule entries in wire order: (key, value) pairs; a repeated key contributes a second value to the same key
 RuleEntries(s) ==
   [i \in 1 .. s.rules |-> <<"rk" \o X(i), "rv" \o X(i)>>]
@@ -284,7 +297,7 @@ U2RuleItems(s) ==
 U2(s) ==
   [sections |->
      \* a consistent server: the player count it reports is the number of entries its players reply lists
-     [info |-> <<U2InfoItems(UstrPlain("name"), Lit(U32le(s.players + s.bots)))>>,
+     [info |-> <<U2InfoItems(UstrPlain("name"), Lit(U32le(U2Reported(s))))>>,
       \* one entry list per section; the harness deals the entries over s.datagrams datagrams, each with its own header
       rules |-> [head |-> U2Head(1),
                  entries |-> [i \in 1 .. s.rules |-> <<[k |-> "f", f |-> "rk" \o X(i), ty |-> "ustr", enc |-> "any", atoms |-> <<>>,
@@ -299,8 +312,9 @@ U2(s) ==
                                     IF i <= s.players THEN F("pping" \o X(i), "u32le_nz") ELSE Lit(<<0, 0, 0, 0>>),
                                     F("pscore" \o X(i), "i32le"), F("pstats" \o X(i), "u32le")>>]]],
    datagrams |-> s.datagrams,
+   players_datagrams |-> IF s.num = "humans" THEN 1 ELSE s.datagrams,
    expect |-> U2InfoExpect
-              \o <<Ec(<<"server_info", "num_players">>, s.players + s.bots), Ec(<<"server_info", "password">>, s.pw = "true"), Eo(<<"mutators_and_rules", "rules">>), El(<<"mutators_and_rules", "mutators">>),
+              \o <<Ec(<<"server_info", "num_players">>, U2Reported(s)), Ec(<<"server_info", "password">>, s.pw = "true"), Eo(<<"mutators_and_rules", "rules">>), El(<<"mutators_and_rules", "mutators">>),
                    El(<<"players", "players">>), El(<<"players", "bots">>)>>
               \o [i \in 1 .. s.rules |-> [p |-> <<"mutators_and_rules", "rules">>, tr |-> "listentry", key |-> "rk" \o X(i), src |-> "rv" \o X(i)]]
               \o If(s.repeat, <<[p |-> <<"mutators_and_rules", "rules">>, tr |-> "listentry", key |-> "rk1", src |-> "rvr"]>>)
